@@ -32,6 +32,18 @@ Theorem C02_escapes : forall rest pos v r' e,
 Proof. exact string_decoding_iff. Qed.
 Print Assumptions C02_escapes.
 
+(* The raw body of a block string is read exactly when the text after the
+   opening delimiter is a sequence of BlockStringCharacters followed by the
+   closing triple quote (the look-ahead exclusions seeing the whole rest of the
+   text), backslash + triple quote standing for a triple quote and every other
+   character for itself; the token value is BlockStringValue of that body
+   (C02_block_string). *)
+Theorem C02_block_body : forall rest pos raw r' e,
+  read_block rest pos [] = Ok (raw, r', e) <->
+  block_scan rest raw r' /\ e = pos + (length rest - length r').
+Proof. exact block_body_iff. Qed.
+Print Assumptions C02_block_body.
+
 (* An Integer / Float token carries verbatim the characters of the source it
    spans, and they form an IntValue / a FloatValue. *)
 Theorem C02_numbers_verbatim : forall rest pos t r',
